@@ -142,6 +142,13 @@ def compare(impl, model, channels, canon=None):
                 break
             (op, il), (_, ml) = iops[i], mops[i]
             incidental = False
+            if canon and op.startswith("rmc ") and il != ml and getattr(canon, "rmc", None):
+                # (the cascade is order-independent on this history: see judge.rmc_projection)
+                pr = canon.rmc(iops, mops, i)
+                if pr is not None and pr[0] != pr[1]:
+                    diffs.append((hid, i, op, "cascade-outcome", pr[0], pr[1]))
+                    found = True
+                    break
             if canon and op.startswith("rmc ") and il != ml:
                 # `remove_component` despawns the entities that have the component in an unspecified order, and handlers of
                 # the RemoveComponent / Despawn notifications can make the outcome depend on that order (ordinals, serials,
